@@ -944,8 +944,7 @@ class ParsedBindingKey(typing.NamedTuple):
       err_str = "Method '{}' referenced without class name '{}'."
       raise ValueError(err_str.format(selector, class_name))
 
-    if not _might_have_parameter(
-        configurable_.wrapper, arg_name, is_method=configurable_.is_method):
+    if not _might_have_parameter(configurable_.wrapper, arg_name):
       err_str = "Configurable '{}' doesn't have a parameter named '{}'."
       raise ValueError(err_str.format(selector, arg_name))
 
@@ -1139,7 +1138,7 @@ def query_parameter(binding_key):
   return _CONFIG[pbk.config_key][pbk.arg_name]
 
 
-def _might_have_parameter(fn_or_cls, arg_name, is_method=False):
+def _might_have_parameter(fn_or_cls, arg_name):
   """Returns True if `arg_name` might be a valid parameter for `fn_or_cls`.
 
   Specifically, this means that `fn_or_cls` either has a parameter named
@@ -1148,7 +1147,6 @@ def _might_have_parameter(fn_or_cls, arg_name, is_method=False):
   Args:
     fn_or_cls: The function or class to check.
     arg_name: The name fo the parameter.
-    is_method: Whether `fn_or_cls` is a method addressed through its class.
 
   Returns:
     Whether `arg_name` might be a valid argument of `fn`.
@@ -1164,7 +1162,7 @@ def _might_have_parameter(fn_or_cls, arg_name, is_method=False):
   if arg_spec.varkw:  # pytype: disable=attribute-error
     return True
   args = arg_spec.args  # pytype: disable=attribute-error
-  if inspect.isclass(fn_or_cls) or is_method:  # pytype: disable=wrong-arg-types
+  if inspect.isclass(fn_or_cls):  # pytype: disable=wrong-arg-types
     args = args[1:]  # The instance (or class) is supplied by Python, never by Gin.
   return arg_name in args or arg_name in arg_spec.kwonlyargs  # pytype: disable=attribute-error
 
